@@ -73,35 +73,58 @@ let () =
           (match out with
            | Some b -> print_endline (fmt_hexbytes b)
            | None -> print_endline "ERR R")
-        end else if t.(0) = "r" then begin
+        end else if t.(0) = "r" || t.(0) = "q" then begin
           let o = { o_mismatch = pol t.(2).[0]; o_overflow = pol t.(2).[1] } in
           let data = parse_hexbytes t.(Array.length t - 1) in
           let total = List.length data in
-          let s =
-            match t.(3) with
+          (* one read at the suffix [rest]; returns the answer and the new suffix (None after an error) *)
+          let read1 (op : string) (ty : string) (rest : n list) : string * n list option =
+            let fin fmt r =
+              match r with
+              | ROk (v, rest') -> (Printf.sprintf "OK %s %d" (fmt v) (total - List.length rest'), Some rest')
+              | RNot rest' -> (Printf.sprintf "NOT %d" (total - List.length rest'), Some rest')
+              | RErr e -> ("ERR " ^ err_cat e, None)
+              | RFuel -> ("FUEL", None) in
+            match op with
             | "int" ->
-              let ty = t.(4) in
               let it = if ty = "u1" then { i_signed = false; i_bits = n_of_int 1 } else ity_of ty in
-              answer total shex_of_z (read_int o it data)
-            | "nil" -> answer total (fun () -> "nil") (if t.(1) = "s" then read_nil_stream o data else read_nil o data)
-            | "f32" -> answer total (fun b -> if is_nan32 b then "nan" else hexnum b) (read_f32 narrow o data)
-            | "f64" -> answer total (fun b -> if is_nan64 b then "nan" else hexnum b) (read_f64 widen o data)
-            | "str" -> answer total fmt_hexbytes (read_str o data)
-            | "arr" -> answer total hexnum (read_array_size o data)
-            | "map" -> answer total hexnum (read_map_size o data)
-            | "bin" -> answer total hexnum (read_bin_size o data)
-            | "byte" -> answer total hexnum (read_binary data)
-            | "ts" -> answer total (fun (s, ns) -> shex_of_z s ^ "," ^ shex_of_z ns) (read_ts o data)
+              fin shex_of_z (read_int o it rest)
+            | "nil" -> fin (fun () -> "nil") (if t.(1) = "s" then read_nil_stream o rest else read_nil o rest)
+            | "f32" -> fin (fun b -> if is_nan32 b then "nan" else hexnum b) (read_f32 narrow o rest)
+            | "f64" -> fin (fun b -> if is_nan64 b then "nan" else hexnum b) (read_f64 widen o rest)
+            | "str" -> fin fmt_hexbytes (read_str o rest)
+            | "arr" -> fin hexnum (read_array_size o rest)
+            | "map" -> fin hexnum (read_map_size o rest)
+            | "bin" -> fin hexnum (read_bin_size o rest)
+            | "byte" -> fin hexnum (read_binary rest)
+            | "ts" -> fin (fun (s, ns) -> shex_of_z s ^ "," ^ shex_of_z ns) (read_ts o rest)
             | "skip" ->
-              (match skip_value data with
-               | SOk rest -> Printf.sprintf "OK - %d" (total - List.length rest)
-               | SErr e -> "ERR " ^ err_cat e
-               | SFuel -> "FUEL")
+              (match skip_value rest with
+               | SOk rest' -> (Printf.sprintf "OK - %d" (total - List.length rest'), Some rest')
+               | SErr e -> ("ERR " ^ err_cat e, None)
+               | SFuel -> ("FUEL", None))
             | "type" ->
-              (match read_value_type data with
-               | Inl v -> Printf.sprintf "OK %d 0" (vtype_code v)
-               | Inr e -> "ERR " ^ err_cat e)
+              (match read_value_type rest with
+               | Inl v -> (Printf.sprintf "OK %d %d" (vtype_code v) (total - List.length rest), Some rest)
+               | Inr e -> ("ERR " ^ err_cat e, None))
             | _ -> failwith "unknown reader op" in
+          let s =
+            if t.(0) = "r" then fst (read1 t.(3) (if Array.length t > 5 then t.(4) else "") data)
+            else begin
+              let ops = split_on ',' t.(3) in
+              let rec go ops rest acc =
+                match ops with
+                | [] -> List.rev acc
+                | op :: tl ->
+                  let (name, ty) = (match String.index_opt op ':' with
+                                    | Some i -> (String.sub op 0 i, String.sub op (i + 1) (String.length op - i - 1))
+                                    | None -> (op, "")) in
+                  let (ans, nxt) = read1 name ty rest in
+                  (match nxt with
+                   | Some r -> go tl r (ans :: acc)
+                   | None -> List.rev (ans :: acc)) in
+              String.concat ";" (go ops data [])
+            end in
           print_endline s
         end else print_endline "UNSUPPORTED"
       with Failure m -> Printf.printf "EXC %s\n" m
